@@ -291,6 +291,8 @@ func (t *tabEnv) applyNoWait(ev string) string {
 			a = pingAnswer{seq: cur.Seq()}
 		case "dead":
 			a = pingAnswer{err: errors.New("timeout")}
+		case "nofetch": // answers, announcing a newer record that then cannot be fetched
+			a = pingAnswer{seq: cur.Seq() + 1}
 		case "newseq":
 			a = pingAnswer{seq: cur.Seq() + 1, newRec: portalwire.VNode(id, cur.IP(), cur.UDP(), cur.Seq()+1)}
 		case "newip":
